@@ -374,6 +374,24 @@ Definition conv_np_v (infer : bool) (np : netpol) : cpolicy :=
 (* the pinned tree *)
 Definition conv_np : netpol -> cpolicy := conv_np_v false.
 
+(* ------------------------------------------------------------------ the pipeline as a history *)
+(* One process converts many objects one after the other (Kubernetes NetworkPolicies, and Calico policies that go
+   through the same update processors).  The model of one step receives the whole history of earlier steps and
+   IGNORES it: the conversion is a function of the object alone.  The correspondence run checks the real pipeline
+   against this on histories (foreign objects before and between the Kubernetes policies, every policy twice). *)
+Inductive item := IK8s (np : netpol) | IForeign (id : N).
+Definition pipeline_step (infer : bool) (hist : list item) (it : item) : option cpolicy :=
+  match it with IK8s np => Some (conv_np_v infer np) | IForeign _ => None end.
+Fixpoint run_pipeline (infer : bool) (hist todo : list item) : list (option cpolicy) :=
+  match todo with
+  | [] => []
+  | it :: rest => pipeline_step infer hist it :: run_pipeline infer (hist ++ [it]) rest
+  end.
+Definition k8s_items (l : list item) : list netpol :=
+  flat_map (fun it => match it with IK8s np => [np] | IForeign _ => [] end) l.
+Definition outputs (l : list (option cpolicy)) : list cpolicy :=
+  flat_map (fun o => match o with Some q => [q] | None => [] end) l.
+
 (* ------------------------------------------------------------------ namespaces and pods *)
 
 (* NamespaceToProfile + profile processor: the profile's labels (the name label overrides a namespace
